@@ -108,6 +108,14 @@ func c06LoopCopyOK() bool {
 
 var c06L, _ = new(big.Int).SetString("3fffffffffffffffffffffffffffffffffffffffffffffffffffffff7cca23e9c44edb49aed63690216cc2728dc58f552378c292ab5844f3", 16) // prime order of the base point
 
+// c06Extra: second offset for the boundary generator (2^224 for 2^448-2^224-1), nil for 2^255-19.
+var c06Extra = func() *big.Int {
+	if Size == 56 {
+		return new(big.Int).Lsh(big.NewInt(1), 224)
+	}
+	return nil
+}()
+
 // c06BasePreimages: the scalars j*l +- 1 that the clamping leaves unchanged; their public key is
 // the base point, a result small enough to have a second representative below 2^(8*Size).
 func c06BasePreimages() []Key {
@@ -154,7 +162,11 @@ func c06Scalar(t *rapid.T, label string) Key {
 func c06U(t *rapid.T, label string) (Key, string) {
 	var u Key
 	cls := "uniform"
-	switch rapid.IntRange(0, 7).Draw(t, label+".kind") {
+	switch rapid.IntRange(0, 9).Draw(t, label+".kind") {
+	case 8, 9:
+		v, _ := prodgen.Boundary(t, Size/8, 1, c06Curve.P, c06Extra, label+".b")
+		copy(u[:], vlib.LE(v, Size))
+		cls = "limb-boundary"
 	case 6, 7:
 		// the first ladder step squares 2u: choose the square first, then u = sqrt/2
 		x, _, _ := prodgen.Factors(t, Size/8, 0, label+".prod")
@@ -311,6 +323,10 @@ func TestVerifC06ToAffine(t *testing.T) {
 func c06Elt(t *rapid.T, label string) (fp.Elt, *big.Int, string) {
 	var e fp.Elt
 	v, cls := vlib.FieldOperand(t, c06Curve.P, 8*Size, 1, false, label)
+	if rapid.IntRange(0, 3).Draw(t, label+".boundary") == 0 {
+		v, cls = prodgen.Boundary(t, Size/8, 1, c06Curve.P, c06Extra, label+".b")
+		cls = "limb-boundary/" + cls
+	}
 	copy(e[:], vlib.LE(v, Size))
 	return e, v, cls
 }
